@@ -10,3 +10,11 @@ package gtids
 //@ func mysql/gtids.IsSlaveAhead
 //@   requires nonnil [safety]: masterGtidSet != nil
 //@   ensures C13.ahead [C13,C11,C16,C04]: result == !sup(masterGtidSet, slaveGtidSet)
+
+// sbText(slaveText, master, uuid): the split-brain relation as computed by IsSplitBrained, as a function of the text the
+// replica's set was parsed from (the replica's set objects are freshly parsed on every evaluation). Definitional:
+// IsSplitBrained is deterministic in the contents of its arguments, which are not mutated while it runs.
+//@ ufunc sbText(string, iface, uuid) bool
+//@ func mysql/gtids.IsSplitBrained
+//@   flags defines
+//@   ensures C04.sb_def [C04,C11]: result == sbText(textOf(slaveGtidSet), masterGtidSet, masterUUID)
